@@ -730,6 +730,13 @@ func (p *Parser) parseFieldElements(curObj *Object) parseResult {
 }
 
 func (p *Parser) parseByteList(obj *Object, dataLen uint32) {
+	// The list cannot extend past the end of the enclosing package.
+	if p.r.EOF() {
+		dataLen = 0
+	} else if maxLen := p.r.pkgEnd - p.r.Offset(); dataLen > maxLen {
+		dataLen = maxLen
+	}
+
 	obj.opcode = pOpIntByteList
 	obj.infoIndex = pOpcodeTableIndex(obj.opcode, true)
 	obj.value = *(*[]byte)(unsafe.Pointer(&reflect.SliceHeader{
